@@ -490,7 +490,8 @@ def check_pass(prog: Program, res: Result) -> None:
     if tr is None:
         raise AnalysisError("Tracker.assign_tracks vanished")
     res.touch(tr)
-    ups = [c for c in walk_function(tr.node) if isinstance(c, ast.Call) and norm(c.func) == "self.candidate.update_tracks"]
+    ups = [c for c in walk_function(tr.node) if isinstance(c, ast.Call) and isinstance(c.func, ast.Attribute) and c.func.attr == "update_tracks"
+           and astq.self_alias(tr.node, c.func.value) == "self.candidate"]
     res.ob(R, len(ups) == 1, tr.qualname, "one hand-over to the candidate's update_tracks", f"{len(ups)} update_tracks calls", tr.where)
     for c in ups:
         ut = prog.cls(FW).methods["update_tracks"]
@@ -561,7 +562,8 @@ def check_features_aligned(prog: Program, res: Result) -> None:
     if fi is None:
         raise AnalysisError("Tracker.get_features vanished")
     res.touch(fi)
-    calls = [c for c in walk_function(fi.node) if isinstance(c, ast.Call) and norm(c.func) == "self.candidate.get_track_instances"]
+    calls = [c for c in walk_function(fi.node) if isinstance(c, ast.Call) and isinstance(c.func, ast.Attribute) and c.func.attr == "get_track_instances"
+             and astq.self_alias(fi.node, c.func.value) == "self.candidate"]
     res.ob(R, len(calls) == 1, fi.qualname, "one hand-over to get_track_instances", f"{len(calls)} get_track_instances calls", fi.where)
     for c in calls:
         gt = prog.cls(FW).methods["get_track_instances"]
@@ -632,6 +634,46 @@ def check_total_candidates(prog: Program, res: Result) -> None:
     res.floor(R, 3)
 
 
+def check_matcher_axes(prog: Program, res: Result, rule: str = "C09-axes") -> None:
+    """`rows, cols = <matcher>(M)` returns positions along axis 0 and axis 1 of M (detections x tracks).  Wherever M is read
+    back at a matched pair, the first index must come from `rows` and the second from `cols`: M[col, row] is silently wrong
+    on square matrices and an IndexError as soon as the number of detections differs from the number of tracks."""
+    n = 0
+    for fi in prog.all_functions():
+        if not fi.module.name.startswith("sleap_nn.tracking"):
+            continue
+        for st in walk_function(fi.node):
+            if not (isinstance(st, ast.Assign) and len(st.targets) == 1 and isinstance(st.targets[0], ast.Tuple) and len(st.targets[0].elts) == 2
+                    and all(isinstance(e, ast.Name) for e in st.targets[0].elts) and isinstance(st.value, ast.Call) and len(st.value.args) == 1 and isinstance(st.value.args[0], ast.Name)):
+                continue
+            callee = norm(st.value.func).split(".")[-1]
+            if not (callee in ("linear_sum_assignment", "hungarian_matching", "greedy_matching") or "matching" in callee):
+                continue
+            M = st.value.args[0].id
+            rows, cols = (e.id for e in st.targets[0].elts)
+            role = {}   # loop variable -> "row" | "col"
+            for g in walk_function(fi.node):
+                it, tg = (g.iter, g.target) if isinstance(g, (ast.For, ast.comprehension)) else (None, None)
+                if it is None:
+                    continue
+                if isinstance(it, ast.Call) and norm(it.func) == "zip" and isinstance(tg, ast.Tuple) and len(tg.elts) == len(it.args):
+                    for a, t in zip(it.args, tg.elts):
+                        if isinstance(a, ast.Name) and isinstance(t, ast.Name) and a.id in (rows, cols):
+                            role[t.id] = "row" if a.id == rows else "col"
+                elif isinstance(it, ast.Name) and it.id in (rows, cols) and isinstance(tg, ast.Name):
+                    role[tg.id] = "row" if it.id == rows else "col"
+            for sub in walk_function(fi.node):
+                if isinstance(sub, ast.Subscript) and isinstance(sub.value, ast.Name) and sub.value.id == M and isinstance(sub.slice, ast.Tuple) and len(sub.slice.elts) == 2 \
+                        and all(isinstance(e, ast.Name) and e.id in role for e in sub.slice.elts):
+                    n += 1
+                    res.touch(fi)
+                    got = [role[e.id] for e in sub.slice.elts]
+                    res.ob(rule, got == ["row", "col"], fi.qualname, f"`{short(sub, 30)}` is read at (matched row, matched column)",
+                           f"`{short(sub, 40)}` indexes the matched matrix `{M}` as ({got[0]}, {got[1]}) of the matcher's result: it must be [{rows}-element, {cols}-element]; with a "
+                           "different number of detections and tracks this raises IndexError (or reads another pair's cost)", f"{fi.module.relpath}:{sub.lineno}")
+    res.floor(rule, 1)
+
+
 def check(prog: Program, res: Result) -> None:
     from . import _state as _st2
     _st2.check_no_stale_loop_var(prog, res, "C09-state", ["sleap_nn.tracking"])
@@ -639,6 +681,7 @@ def check(prog: Program, res: Result) -> None:
     _state.check_no_cross_call_state(prog, res, "C09-state", ["sleap_nn.tracking.tracker:Tracker.get_features", "sleap_nn.tracking.tracker:Tracker.update_candidates", "sleap_nn.tracking.tracker:Tracker.get_scores", "sleap_nn.tracking.tracker:Tracker.scores_to_cost_matrix", "sleap_nn.tracking.tracker:Tracker.assign_tracks", "sleap_nn.tracking.tracker:FlowShiftTracker.update_candidates", "sleap_nn.tracking.tracker:FlowShiftTracker.get_shifted_instances_from_prv_frames"], floor=7)
     from . import _parallel
     _parallel.check_parallel_index(prog, res, "C09-index")
+    check_matcher_axes(prog, res)
     from . import _iou
     _iou.check_iou(prog, res, "C09-iou")
     check_alloc(prog, res)
